@@ -59,6 +59,9 @@ pub fn cmd_registry(args: &[String]) -> i32 {
     for (t, n, v) in &consts {
         writeln!(out, "{}", json!({"kind":"const","type":t,"name":n,"value":v})).unwrap();
     }
+    for (t, n, v) in crate::generated_consts::discovered() {
+        writeln!(out, "{}", json!({"kind":"alias","type":t,"name":n,"value":v})).unwrap();
+    }
     let names_of = |t: &str| -> Vec<&'static str> { consts.iter().filter(|c| c.0 == t).map(|c| c.1).collect() };
     macro_rules! both { ($tn:expr, $T:ident, $w:ty) => {{ let n = names_of($tn); shown!(out, $tn, $T, $w, &n, display); shown!(out, $tn, $T, $w, &n, debug); }}; }
     both!("TlsRecordType", TlsRecordType, u8);
